@@ -15,7 +15,7 @@ import (
 
 func init() {
 	Registry["C03"] = Set{
-		Explanation: "Decides the structural clauses of mailbox ordering: O1 every place that selects a mailbox queue from a message priority implements the same table (High->System, Max->Urgent, everything else->Main) — value sets of the switched priority are computed per incoming edge of the queue phi; O1b every push of a message whose Type is Exit or Inspect targets Urgent (meta mailbox: exit and inspect -> system, regular and request -> main); O1c down notifications are routed with Priority High; O1d log messages go to the Log queue; O2 in every ProcessRun implementation found through gen.ProcessBehavior and in the meta handler, the Pop of a lower class is dominated by the failure edge of the Pop of the next higher class (Urgent, System, Main, Log), and after any successful Pop no other Pop is reachable before Pop(Urgent) (one message per scan, restart from the top); O3 queue discipline: head is written only by an atomic swap in Push, tail only by the consumer in Pop, next only by the pusher that obtained the old head. Added while probing: O2 holds for every Pop site (several sites per class are allowed); O3 Pop advances tail by exactly one node (tail.next, once per call) and returns that node's value.",
+		Explanation: "Decides the structural clauses of mailbox ordering: O1 every place that selects a mailbox queue from a message priority implements the same table (High->System, Max->Urgent, everything else->Main) — value sets of the switched priority are computed per incoming edge of the queue phi; O1b every push of a message whose Type is Exit or Inspect targets Urgent (meta mailbox: exit and inspect -> system, regular and request -> main); O1c down notifications are routed with Priority High; O1d log messages go to the Log queue; O2 in every ProcessRun implementation found through gen.ProcessBehavior and in the meta handler, the Pop of a lower class is dominated by the failure edge of the Pop of the next higher class (Urgent, System, Main, Log), and after any successful Pop no other Pop is reachable before Pop(Urgent) (one message per scan, restart from the top); O3 queue discipline: head is written only by an atomic swap in Push, tail only by the consumer in Pop, next only by the pusher that obtained the old head. Added while probing: O2 holds for every Pop site (several sites per class are allowed); O3 Pop advances tail by exactly one node (tail.next, once per call) and returns that node's value. O4 = C13.F5 (a compressed frame keeps the receive-queue selector of the frame it wraps). O5 the one-shot priority / importance a process lends itself for one send (SendWithPriority, SendImportant, CallWithPriority, CallImportant) is put back on every path, also when the send fails.",
 		NotDecided: []string{
 			"FIFO of the lock-free MPSC algorithm under concurrent producers (only who-writes-what is decided)",
 			"fairness between priority classes",
@@ -40,6 +40,91 @@ func runC03(p *load.Program, r *core.Report) {
 	c03DownPriority(a, r)
 	c03Dequeue(a, r)
 	c03QueueDiscipline(a, r)
+	// O4: per-sender order across the network also depends on compressed and plain frames of one pair
+	// being decoded by the same receive worker (the C13.F5 rule, registered here for "whichever way
+	// the message travels")
+	if sendFn := a.P.Func("net/proto", "connection", "send"); sendFn != nil {
+		c13Envelope(a.P, r, sendFn, "C03.O4 envelope-keeps-selector")
+	} else {
+		r.Unk("C03.O4 envelope-keeps-selector", "C03.O4|send", "", "", "the frame sender is found", "net/proto.(*connection).send not found")
+	}
+	c03TemporaryOverride(a, r)
+}
+
+// c03TemporaryOverride: O5 — SendWithPriority / SendImportant (and their Call twins) lend the process a
+// priority / importance for ONE send: they save the field, overwrite it, send, and put the saved
+// value back. Every path from the overwrite to a return passes the restoring store — also the path
+// on which the send failed. A leaked Max priority sends all later plain messages of the process to
+// the receivers' Urgent queues, where they overtake its earlier normal-priority messages.
+func c03TemporaryOverride(a *Anchors, r *core.Report) {
+	rule := "C03.O5 one-shot-priority-restored"
+	r.Floor(rule, 4)
+	for _, f := range funcsOfPkgs(a.P, "node") {
+		if f.Parent() != nil || !recvIs(f, a.ProcessT) {
+			continue
+		}
+		// saved := p.F ; p.F = <param or const> ; ... ; p.F = saved
+		type ov struct {
+			field string
+			over  *ssa.Store
+			saved ssa.Value
+		}
+		var ovs []ov
+		eachInstr(f, func(in ssa.Instruction) {
+			st, ok := in.(*ssa.Store)
+			if !ok {
+				return
+			}
+			own, fl := fieldOwner(st.Addr)
+			if own != a.ProcessT || (fl != "priority" && fl != "important" && fl != "keeporder" && fl != "compression") {
+				return
+			}
+			// a load of the same field that dominates this store and is stored back later
+			eachInstr(f, func(x ssa.Instruction) {
+				ld, ok := x.(*ssa.UnOp)
+				if !ok || ld.Op != token.MUL {
+					return
+				}
+				if o2, f2 := fieldOwner(ld.X); o2 != a.ProcessT || f2 != fl || !instrDominates(x, in) {
+					return
+				}
+				if st.Val == ssa.Value(ld) {
+					return // this IS the restoring store
+				}
+				// is ld stored back somewhere?
+				restored := false
+				eachInstr(f, func(y ssa.Instruction) {
+					s2, ok := y.(*ssa.Store)
+					if ok && s2 != st && s2.Val == ssa.Value(ld) {
+						if o3, f3 := fieldOwner(s2.Addr); o3 == a.ProcessT && f3 == fl {
+							restored = true
+						}
+					}
+				})
+				if restored {
+					ovs = append(ovs, ov{fl, st, ld})
+				}
+			})
+		})
+		for i, o := range ovs {
+			fn := fname(f)
+			key := fmt.Sprintf("C03.O5|%s|%s#%d", fn, o.field, i+1)
+			inst := "the one-shot " + o.field + " is put back on every path, also when the send fails"
+			isRestore := func(y ssa.Instruction) bool {
+				s2, ok := y.(*ssa.Store)
+				if !ok || s2.Val != o.saved {
+					return false
+				}
+				o3, f3 := fieldOwner(s2.Addr)
+				return o3 == a.ProcessT && f3 == o.field
+			}
+			if hit := reaches([]Point{after(o.over)}, isRestore, isReturn); hit != nil {
+				r.Bad(rule, key, fn, a.P.Pos(o.over.Pos()), inst, "the return at "+a.P.Pos(hit.Pos())+" is reachable without restoring p."+o.field+": after one failed one-shot send the process keeps the borrowed "+o.field+" for all its later sends")
+			} else {
+				r.OK(rule, key, fn, a.P.Pos(o.over.Pos()), inst, "every path from the overwrite to a return stores the saved value back")
+			}
+		}
+	}
 }
 
 func prioConsts(a *Anchors) (names map[int64]string, byName map[string]int64) {
